@@ -146,7 +146,7 @@ NA = {
  'C03': "bindings/uprefs use std::map<std::string,...> and the run-time part needs the operator harness with closures; symbolic execution of that heap did not come within reach (DESIGN 2.5, 7)",
  'C05': "needs the libdw contract model plus import chains of shared_ptr; not reached (DESIGN 7)",
  'C06': "needs the libdw contract model and attribute_producer's vector/scheduling heap; not reached (DESIGN 7)",
- 'C10': "op_tr_closure keeps a std::set<shared_ptr<stack>> ordered by value comparison: control depends on symbolic data, and CBMC's symbolic execution of merged C++ heap states did not terminate (DESIGN 2.5)",
+ 'C10': "op_tr_closure keeps a std::set<shared_ptr<stack>> ordered by value comparison: control depends on symbolic data, and CBMC's symbolic execution of merged C++ heap states did not terminate; moreover libstdc++'s red-black tree rebalancing (_Rb_tree_insert_and_rebalance) lives in the shared library, not in the headers, so std::set / std::map need a hand-written model that was not built (DESIGN 2.5, 0.4)",
  'C19': "main() of the CLI is a 400-line monolith behind getopt/iostream/file I/O; the observables are the effects of those externals (DESIGN 7)",
 }
 
